@@ -10,6 +10,7 @@
 package scen19
 
 import (
+	"github.com/thushan/olla/internal/adapter/stats"
 	"bytes"
 	"context"
 	"encoding/hex"
@@ -32,6 +33,7 @@ type Scenario struct {
 	EPs      []scen.EPSpec `json:"eps"`
 	Clients  int           `json:"clients"`
 	Gated    bool          `json:"gated,omitempty"` // backends hold every request until all clients are held
+	UptimeMin int          `json:"uptime_min,omitempty"` // gated only: while the attempts are held, the collector's periodic clean-up pass runs as it would after this many minutes of uptime
 	Abort    bool          `json:"abort,omitempty"` // the client closes its socket after the first body byte
 }
 
@@ -323,6 +325,10 @@ func Run(sc *Scenario) *Obs {
 		fmu.Lock()
 		m.Finished = int(finished)
 		fmu.Unlock()
+		if sc.UptimeMin > 0 {
+			time.Sleep(10 * time.Millisecond) // the held attempts have been in flight for a while
+			stats.VerifCleanupPassAfter(s.Stats, time.Duration(sc.UptimeMin)*time.Minute)
+		}
 		m.C = read(s, sc, backends, b0)
 		obs.Mid = m
 		release()
